@@ -92,6 +92,8 @@ func main() {
 		runC01proc(c)
 	case "C04", "C07", "C09", "C14":
 		runClock(c)
+	case "C11":
+		runC11proc(c)
 	default:
 		fmt.Println("unknown property for vproc:", *prop)
 		os.Exit(2)
